@@ -9,7 +9,7 @@ import numpy
 PROPERTY = "C05"
 LEVEL = "exploration"
 NEED_EXT = True
-REQUIRED = ["fit.concurrent_pair", "fit.optimality", "fit.quantile_fraction", "score.exact", "score.monotone",
+REQUIRED = ["fit.concurrent_pair", "history.refused_refit_other_intercept", "fit.optimality", "fit.quantile_fraction", "score.exact", "score.monotone",
             "weights.duplication", "option.positive", "option.no_intercept"]
 RULE = ("cases drawn from (quantile x n x p x noise kind x weights x positive x fit_intercept x container); "
         "non-trivial = q != 0.5, n >= 5(p+1) and LP optimum > 0; distinct = distinct (config, data fingerprint)")
@@ -90,7 +90,7 @@ def run_case(case, ctx):
     # container / dtype / scale classes: the loss is scale-equivariant and the estimator documents that the
     # target "will be cast to X's dtype if necessary"
     variant = ["float64", "bool-features", "tiny-scale", "int-target", "int-features", "large-scale", "float32-features",
-               "fortran-order"][(sub // 3) % 8]
+               "fortran-order", "unsigned-features"][(sub // 3) % 9]
     S = 1.0            # magnitude of the targets; absolute slacks and the IRLS floor `delta` follow it
     y_unit = None
     if variant == "int-target":
@@ -108,6 +108,19 @@ def run_case(case, ctx):
         if numpy.linalg.matrix_rank(numpy.hstack([Xb.astype(float), numpy.ones((n, 1))])) == p + 1:
             X = Xb
             y = X.astype(float) @ rng.uniform(-2, 2, size=p) + rng.randn(n)
+        else:
+            variant = "float64"
+    elif variant == "unsigned-features":
+        # counts stored as uint8 / uint16 / uint32 (pixel values, word counts); the intercept is far below zero, so
+        # that with positive=True the negative intercept column is what the fit needs
+        udt = ["uint8", "uint16", "uint32"][(sub // 27) % 3]
+        Xu = numpy.clip(numpy.round(numpy.abs(X) * 12), 0, 250).astype(udt)
+        if len(numpy.unique(Xu, axis=0)) >= n // 2 and numpy.linalg.matrix_rank(
+                numpy.hstack([Xu.astype(float), numpy.ones((n, 1))])) == p + 1:
+            X = Xu
+            positive = bool((sub // 27) % 2 == 0)
+            bu = rng.uniform(0.05, 0.4, size=p) if positive else rng.uniform(-0.3, 0.3, size=p)
+            y = X.astype(float) @ bu - 20.0 + rng.randn(n)
         else:
             variant = "float64"
     elif variant == "large-scale":
@@ -287,6 +300,42 @@ def run_case(case, ctx):
         ctx.check(abs(la - lb) <= 2 * EPS_REL * max(la, lb) + A, "C05/fit/weights-vs-duplication",
                   "weighted fit and repeated-rows fit differ: pinball %.6g vs %.6g on the repeated data" % (
                       la, lb), cfg=cfg)
+    # history: the other fit_intercept setting is asked for and that fit is REFUSED by the inner regression; whatever
+    # hyperplane the object then still answers with is the fitted one (it minimises the loss as before) - or it refuses
+    if sub % 3 == 0:
+        h = new()
+        Xh = numpy.array(X, copy=True)
+        h.fit(Xh, y) if w is None else h.fit(Xh, y, sample_weight=w)
+        loss0 = pinball(y, h.predict(X), q, w)
+        h.set_params(fit_intercept=not fit_intercept)
+        fault = ["nan-in-X", "weights-of-other-length", "inf-in-y"][(sub // 3) % 3]
+        try:
+            if fault == "nan-in-X" and X.dtype.kind == "f":
+                Xb = numpy.array(X, copy=True)
+                Xb[n // 2, 0] = numpy.nan
+                h.fit(Xb, y)
+            elif fault == "inf-in-y":
+                yb = numpy.array(y, dtype=float)
+                yb[n // 3] = numpy.inf
+                h.fit(numpy.array(X, copy=True), yb)
+            else:
+                h.fit(numpy.array(X, copy=True), y, sample_weight=numpy.ones(n + 3))
+            refused = False
+        except Exception:
+            refused = True
+        if refused:
+            try:
+                fh = h.predict(X)
+            except Exception:
+                fh = None
+            ctx.hit("history.refused_refit_other_intercept")
+            if fh is not None:
+                loss1 = pinball(y, fh, q, w)
+                if not loss1 <= loss0 * (1 + 1e-9) + A:
+                    ctx.violation("C05/history/refused-refit/hyperplane-no-longer-minimises",
+                                  "fit(fit_intercept=%r), set_params(fit_intercept=%r), a refit the inner regression refuses "
+                                  "(%s): predict now answers with a hyperplane of pinball loss %.6g (was %.6g)" % (
+                                      fit_intercept, not fit_intercept, fault, loss1, loss0), cfg=cfg)
     # two models fitted at the same time in two threads (another quantile, other targets, the same number of rows),
     # with yield injection in the library's source: each is the model a lone fit gives
     if sub % 10 == 0:
